@@ -112,6 +112,8 @@ func (c *Client) receive() ([]Message, error) {
 			// frame not complete
 			continue
 		case err != nil:
+			// the stream position is unknown after a protocol error
+			_ = c.Disconnect()
 			return nil, err
 		case m != nil:
 			// frame complete
